@@ -9,7 +9,7 @@ Not decided: "exactly the states about to be entered/exited" for nested states w
 import re
 
 from ..engine import site_str
-from ..ir import AnalysisBroken, walk, strip
+from ..ir import sym_paths, AnalysisBroken, walk, strip
 from .common import insts, paths_of
 from .C12 import _expr_txt, _FN
 from . import C03, routing
@@ -157,6 +157,17 @@ def check(ctx, F):
         per[(spec, b["name"])] = (fid, qa)
         site = "RegistryT<%s>::%s" % (spec, b["name"])
         ctx.instance("C13.fields", site, {"function": site, "loc": F.floc(fid), "atoms": [sorted(a) for a in qa]})
+        if spec == "general" and b["name"] != "activeSubState":
+            # the composite fork that owns the answer may lie any number of orthogonal forks above the state: the way up is a loop over
+            # forkParent(), not a fixed number of hops (with the loop unrolled twice some path climbs twice)
+            climbs = 0
+            for p in sym_paths(F, fid, 2):
+                ctx.paths += 1
+                climbs = max(climbs, sum(1 for ev in p if ev[0] == "call" and ev[2] is not None and F.fn(ev[2])["name"] == "forkParent"))
+            if climbs < 2:
+                ctx.violation("C13.fields", site + "/walk", "%s (%s)" % (site, F.floc(fid)),
+                              "%s climbs at most %d fork(s) towards the nearest composite ancestor: for a state below nested orthogonal regions the query "
+                              "never reaches the fork that decides it" % (site, climbs), {})
         if len(qa) != 1:
             ctx.violation("C13.fields", site + "/shape", "%s (%s)" % (site, F.floc(fid)), "%d registry-dependent returns, expected 1" % len(qa), {})
             continue
